@@ -152,6 +152,30 @@ def r1_freeze(ctx, F, vb):
     ctx.check(good, "C04.R1", "freeze_impl:post_freeze-loop",
               "post_freeze runs in a loop over frozen_defs after the frozen module data is allocated and before Ok",
               "freeze_impl no longer runs post_freeze for the frozen defs before returning", fn=fi)
+    # everything that can freeze a def runs before the post_freeze loop (a def first reached later is registered in
+    # frozen_defs after the loop has consumed the list: it keeps its placeholder body)
+    clos = {st.lhs: F.fns.get(st.kind.rsplit(" @", 1)[1]) for st in fi.stmts
+            if st.kind.startswith("agg closure ") and " @" in st.kind}
+    freezing = list(sl)
+    for c in fi.calls:
+        if c.bb in fi.cleanup:
+            continue
+        for a in c.args:
+            for l in re.findall(r"_\d+", a):
+                g = clos.get(l)
+                if g is not None and any(re.search(r"Freezer::<'fv>::freeze$", d.name) for d in g.calls):
+                    freezing.append(c)
+    freezing += [c for c in fi.calls if c.bb not in fi.cleanup and re.search(r"Freezer::<'fv>::freeze$", c.name)]
+    loop_heads = [n_ for n_ in nxt if pf and any(p.bb in fi.after(n_.bb) for p in pf) and "FrozenDef" in n_.full + "".join(
+        fi.locals.get(l, "") for a in n_.args for l in re.findall(r"_\d+", a)) or (pf and any(
+            p.bb in fi.after(n_.bb) and n_.bb in fi.after(p.bb) for p in pf))]
+    ok = bool(loop_heads) and len(freezing) >= 2 and all(
+        h.bb in fi.after(x.bb) and x.bb not in fi.after(h.bb) for x in freezing for h in loop_heads)
+    ctx.check(ok, "C04.R1", "freeze_impl:all-freezing-before-post_freeze",
+              "slots and extra_value are frozen before the post_freeze loop starts (%d freezing calls)" % len(freezing),
+              "freeze_impl freezes part of the module (slots / extra_value) after the post_freeze loop has run: a def "
+              "reachable only from that part is never given its module and optimised body, and calling it after the "
+              "freeze panics", fn=fi)
     post_freeze_declaring_module(ctx, F)
 
 
